@@ -20,7 +20,7 @@ import warnings
 from ufl import sobolevspace
 from ufl.algebra import Conj, Imag, Real
 from ufl.averaging import CellAvg, FacetAvg
-from ufl.checks import is_cellwise_constant
+from ufl.checks import is_cellwise_constant, is_true_ufl_scalar
 from ufl.coefficient import Coefficient
 from ufl.conditional import (
     EQ,
@@ -613,6 +613,10 @@ def min_value(x, y):
 def _mathfunction(f, cls):
     """A mat function."""
     f = as_ufl(f)
+    if not is_true_ufl_scalar(f):
+        # Also reject constants carrying free indices (which are folded
+        # to literals by the constructors and would lose their indices)
+        raise ValueError("Expecting scalar argument.")
     r = cls(f)
     if isinstance(r, RealValue | Zero | int | float):
         return float(r)
